@@ -30,7 +30,7 @@ PROOF_FAIL = ('precondition not met', 'postcondition not satisfied', 'preconditi
               'invariant not satisfied', 'assertion failure', 'cannot show', 'decreases not satisfied',
               'possible arithmetic underflow/overflow', 'possible division by zero',
               'recommendation not met', 'failed this', 'index out of bounds', 'not satisfied',
-              'possible bit shift underflow/overflow', 'unreachable')
+              'possible bit shift underflow/overflow', 'unreachable', 'unable to prove')
 RESOURCE = ('resource limit', 'rlimit', 'timed out', 'time limit', 'solver canceled', 'out of memory')
 
 
